@@ -89,6 +89,19 @@ func (s *State) mapGet(mc *MapContents, k *Term, name string) (*Term, Value) {
 		_ = ks
 		val = s.mapBaseValue(mc, k)
 	}
+	merge := func(c *Term, a, b Value) (out Value) {
+		// values that cannot be merged into one symbolic value (pointers to different objects) become arbitrary:
+		// a sound over-approximation of the looked-up value (the presence bit stays exact)
+		defer func() {
+			if r := recover(); r != nil {
+				if _, ok := r.(unsupported); !ok {
+					panic(r)
+				}
+				out = s.symValue(mc.ElemT, "mapget.any")
+			}
+		}()
+		return s.iteValue(c, a, b)
+	}
 	for i, kk := range mc.Keys {
 		hit := Eq(k, kk)
 		if hit.IsFalse() {
@@ -96,15 +109,15 @@ func (s *State) mapGet(mc *MapContents, k *Term, name string) (*Term, Value) {
 		}
 		if mc.Vals[i] == nil {
 			present = Ite(hit, False, present)
-			val = s.iteValue(hit, s.zeroValue(mc.ElemT), val)
+			val = merge(hit, s.zeroValue(mc.ElemT), val)
 		} else {
 			present = Ite(hit, True, present)
-			val = s.iteValue(hit, mc.Vals[i], val)
+			val = merge(hit, mc.Vals[i], val)
 		}
 	}
 	// a missing key yields the zero value
 	if !present.IsTrue() {
-		val = s.iteValue(present, val, s.zeroValue(mc.ElemT))
+		val = merge(present, val, s.zeroValue(mc.ElemT))
 	}
 	return present, val
 }
